@@ -5,7 +5,7 @@ from concurrent.futures import ThreadPoolExecutor
 
 VERIF = os.path.dirname(os.path.dirname(os.path.dirname(os.path.abspath(__file__))))
 REPO = os.environ.get("E57_REPO", "/repo")
-CACHE = os.path.join(VERIF, ".cache")
+CACHE = os.environ.get("VERIF_CACHE") or os.path.join(VERIF, ".cache")
 COQ = os.path.join(VERIF, "coq")
 DRIVER = os.path.join(CACHE, "ocaml", "driver")
 NPROC = int(os.environ.get("VERIF_JOBS", "16"))
